@@ -27,8 +27,18 @@ H_ATTRS = {
 }
 
 
-def model_desc(sim_type, any_inputs=False):
-    if sim_type == "time-based":
+SPLIT = {      # the same models described by their role lists only (no `attrs`): inputs != outputs
+    "time-based": {"non-trigger": ["mi"], "persistent": ["po"]},
+    "event-based": {"trigger": ["ti", "ti2"], "non-persistent": ["eo"]},
+    "hybrid": {"trigger": ["ti", "ti2"], "non-trigger": ["mi"], "persistent": ["po"],
+               "non-persistent": ["eo"]},
+}
+
+
+def model_desc(sim_type, any_inputs=False, split=False):
+    if split:
+        m = {k: list(v) for k, v in SPLIT[sim_type].items()}
+    elif sim_type == "time-based":
         m = dict(T_ATTRS)
     elif sim_type == "event-based":
         m = dict(E_ATTRS)
@@ -62,7 +72,8 @@ class StubSim(mosaik_api_v3.Simulator):
         self.spec = spec
         self.ctx = CTX
         self.meta["type"] = spec["type"]
-        self.meta["models"] = {"M": model_desc(spec["type"], spec.get("any_inputs", False))}
+        self.meta["models"] = {"M": model_desc(spec["type"], spec.get("any_inputs", False),
+                                               spec.get("split", False))}
         if spec.get("child"):
             # a child entity of ANOTHER model with the same attribute names but swapped roles
             # (hybrid only): in K, `mi` triggers and `ti`/`ti2` do not; `eo` persistent, `po` not
@@ -71,8 +82,20 @@ class StubSim(mosaik_api_v3.Simulator):
                 public=False, params=[])
         if spec.get("set_events"):
             self.meta["set_events"] = True
+        if spec.get("extra_methods"):
+            # extra methods: recorded when they reach the simulator, answer "<name>-ret"
+            self.meta["extra_methods"] = list(spec["extra_methods"])
+            for name in spec["extra_methods"]:
+                setattr(self, name, self._make_extra(name))
         self.ctx.stubs[sid] = self
         return self.meta
+
+    def _make_extra(self, name):
+        def extra(*args, **kw):
+            self.ctx.ev("XM", self.sid, name, json.dumps([list(args), kw], sort_keys=True))
+            return f"{name}-ret"
+        extra.__name__ = name
+        return extra
 
     def create(self, num, model, **kw):
         first = {"eid": "e", "type": model}
